@@ -104,6 +104,7 @@ func ProfileOpenAPI(avoid map[string]string) *Profile {
 	p := ProfileFull(avoid)
 	p.Name = "openapi"
 	p.MultiFeature = false
+	p.DupShortNames = true
 	p.HostileNames = false
 	return p
 }
